@@ -156,6 +156,24 @@ def selfcheck(pid, tier, seed, wd, bins, out):
     out["distinct"] += hists
     out["rule"] += " selfcheck: implementation-only checks on %d further histories per build (real references, clones, foreign arenas, 8 reader threads, par_iter)." % hists
 
+def deep(pid, tier, seed, wd, bins, out):
+    """C02 'every call returns' on very tall / wide trees with a small thread stack (a recursion whose depth follows
+    the tree height overflows the stack and aborts the process)"""
+    depth = 200000 if tier == "quick" else 1000000
+    for build in ("debug", "release"):
+        rc, o = sh([bins[build], "deep", "--depth", str(depth), "--stack", str(256 * 1024)], timeout=900)
+        phases = [l for l in o.splitlines() if l.startswith("DEEP phase")]
+        last = phases[-1][len("DEEP phase "):] if phases else "?"
+        if rc == 124:
+            out["violations"].append(_viol(["a call did not return within 900 s on a tree of %d nodes (%s build); last phase started: %s" % (depth, build, last)]))
+        elif rc != 0 or "DEEP done" not in o:
+            out["violations"].append(_viol(["the process died (rc=%d, e.g. stack overflow on a 256 KiB stack) on a tree of %d nodes (%s build) during: %s" % (rc, depth, build, last),
+                                            "reproduce: %s deep --depth %d --stack %d" % (bins[build], depth, 256 * 1024)]))
+        elif "DEEP BAD" in o:
+            out["violations"].append(_viol(["wrong counts on a very tall / wide tree (%s build): %s" % (build, [l for l in o.splitlines() if l.startswith("DEEP result")])]))
+        out["evaluations"] += len(phases)
+    out["summary"]["deep"] = "path, comb and star trees of %d nodes on a 256 KiB stack: all iterators, clone, checked_append refusal, detach/append, remove, remove_subtree, drop (debug and release)" % depth
+
 def determinism(pid, tier, seed, wd, bins, out):
     """the same call history on two fresh arenas (two processes) gives identical observations"""
     for build in ("debug", "release"):
@@ -385,6 +403,7 @@ def run_extras(pid, tier, seed, wd, bins):
     for e in vlib.PROPS[pid].get("extra", []):
         if e == "stamps": stamps(pid, tier, seed, wd, bins, out)
         elif e == "genwrap": genwrap(pid, tier, seed, wd, bins, out)
+        elif e == "deep": deep(pid, tier, seed, wd, bins, out)
         elif e == "selfcheck": selfcheck(pid, tier, seed, wd, bins, out)
         elif e == "determinism": determinism(pid, tier, seed, wd, bins, out)
         elif e == "features": features(pid, tier, seed, wd, bins, out)
